@@ -13,7 +13,7 @@ open MysticVerif.Trans
 section nearest
 variable {K : Type} [Field K] [LinearOrder K] [IsStrictOrderedRing K]
 
-theorem ordered_getElem?_le (s : List K) (hs : Ordered true s) (i j : Nat) (a b : K) (hij : i ≤ j)
+theorem ordered_get_le (s : List K) (hs : Ordered true s) (i j : Nat) (a b : K) (hij : i ≤ j)
     (ha : s[i]? = some a) (hb : s[j]? = some b) : a ≤ b := by
   rcases Nat.lt_or_ge i j with h | h
   · obtain ⟨hi, rfl⟩ := List.getElem?_eq_some_iff.mp ha
@@ -41,7 +41,7 @@ theorem nearS_nearest_first (s : List K) (hs : Ordered true s) (hne : s ≠ []) 
     rw [hc0]
     have h0 : s[0]? = some s[0] := List.getElem?_eq_getElem hpos
     have hs0 : xi ≤ s[0] := h2 0 _ (by omega) h0
-    have hle : s[0] ≤ v := ordered_getElem?_le s hs 0 i _ _ (Nat.zero_le _) h0 hiv'
+    have hle : s[0] ≤ v := ordered_get_le s hs 0 i _ _ (Nat.zero_le _) h0 hiv'
     simp only [show (0 : Nat) - 1 = 0 from rfl, show ¬ (0 = s.length) by omega, if_false, h0, Option.getD_some, ite_self]
     rw [abs_of_nonneg (by linarith), abs_of_nonneg (by linarith)]
     rcases lt_or_eq_of_le hle with h | h
@@ -53,7 +53,7 @@ theorem nearS_nearest_first (s : List K) (hs : Ordered true s) (hne : s ≠ []) 
       have hl : s[s.length - 1]? = some s[s.length - 1] := List.getElem?_eq_getElem hlast
       have hsl : s[s.length - 1] < xi := h1 _ _ (by omega) hl
       have hvx : v < xi := h1 i v (by omega) hiv'
-      have hle : v ≤ s[s.length - 1] := ordered_getElem?_le s hs i _ _ _ (by omega) hiv' hl
+      have hle : v ≤ s[s.length - 1] := ordered_get_le s hs i _ _ _ (by omega) hiv' hl
       simp only [hcl, if_true, hl, Option.getD_some, ite_self]
       rw [abs_of_neg (by linarith), abs_of_neg (by linarith)]
       rcases lt_or_eq_of_le hle with h | h
@@ -70,7 +70,7 @@ theorem nearS_nearest_first (s : List K) (hs : Ordered true s) (hne : s ≠ []) 
       generalize s[countLt s xi] = hi at *
       rcases Nat.lt_or_ge i (countLt s xi) with hic | hic
       · -- v ≤ lo
-        have hvlo : v ≤ lo := ordered_getElem?_le s hs i _ _ _ (by omega) hiv' hlo
+        have hvlo : v ≤ lo := ordered_get_le s hs i _ _ _ (by omega) hiv' hlo
         split
         · rename_i hnear
           rw [abs_of_nonneg (by linarith), abs_of_neg (by linarith)]
@@ -81,7 +81,7 @@ theorem nearS_nearest_first (s : List K) (hs : Ordered true s) (hne : s ≠ []) 
           · left; linarith
           · right; exact ⟨by rw [h], by rw [h]⟩
       · -- hi ≤ v
-        have hhiv : hi ≤ v := ordered_getElem?_le s hs _ i _ _ hic hhi hiv'
+        have hhiv : hi ≤ v := ordered_get_le s hs _ i _ _ hic hhi hiv'
         split
         · rename_i hnear
           rw [abs_of_nonneg (by linarith), abs_of_nonneg (by linarith)]
